@@ -50,7 +50,7 @@ def case_tree(T, tree, words, left):
     for kind, xdt in left:
         shp = {"vec": (m, ), "row2": (2, m)}[kind]
         X = T.arr(f"Y{kind}{np.dtype(xdt).char}", shp, xdt)
-        Xr = Ref(rfrom(T, X.reshape(-1, m)), xdt)
+        Xr = Ref(rfrom(T, X.reshape((1, m) if kind == 'vec' else (2, m))), xdt)
         want = expected(T, ref_matmul(T, Xr, R0))
         if kind == "vec":
             want = want.reshape(-1)
@@ -58,7 +58,7 @@ def case_tree(T, tree, words, left):
         # left product with the transposed operator as well
         At, Rt = _tower(A0, R0, T, "T")
         Z = T.arr(f"Z{kind}{np.dtype(xdt).char}", (2, n) if kind == "row2" else (n, ), xdt)
-        Zr = Ref(rfrom(T, Z.reshape(-1, n)), xdt)
+        Zr = Ref(rfrom(T, Z.reshape((1, n) if kind == 'vec' else (2, n))), xdt)
         want = expected(T, ref_matmul(T, Zr, Rt))
         if kind == "vec":
             want = want.reshape(-1)
